@@ -146,21 +146,40 @@ Proof.
   exact (binary_rep op xa xb x ka va kb vb v' (IHa xa ka va Hta Hxa Ea Hexa) (IHb xb kb vb Htb Hxb Eb Hexb) Hk Em Hfit).
 Qed.
 
-Lemma sound_as t a : sound_int a -> sound_int (CAs t a).
+Lemma sound_as_i32 a : sound_int a -> sound_int (CAs TI32 a).
 Proof.
   intros IHa x k v Ht Hx He Hex. destruct (exact_inv _ _ _ He Hex) as [Hfit Hexa].
   cbn [wgsl_eval] in Hx. apply bind_ok in Hx. destruct Hx as [y [Hy Hc]].
-  destruct t; try discriminate Ht; cbn [mod_tree] in Ht; cbn [eval_constant_int] in He;
-    destruct (eval_constant_int a) as [[ka va]|] eqn:Ea; try discriminate He; injection He as <- <-;
-    specialize (IHa y ka va Ht Hy Ea Hexa);
-    destruct y as [b|b| |]; try contradiction; cbn [rep] in IHa; destruct IHa as [-> [-> Hb]];
+  cbn [mod_tree] in Ht. cbn [eval_constant_int] in He.
+  destruct (eval_constant_int a) as [[ka va]|] eqn:Ea; try discriminate He. injection He as <- <-.
+  specialize (IHa y ka va Ht Hy Ea Hexa).
+  destruct y as [b|b| |]; try contradiction; cbn [rep] in IHa; destruct IHa as [-> [-> Hb]];
     unfold wgsl_convert in Hc; cbn [wgsl_convert_concrete] in Hc; injection Hc as <-; cbn [rep].
   - auto.
   - split; [reflexivity|]. split; [|assumption]. unfold i32_of_u32.
     apply fits_sint in Hfit. unfold sgn. destruct (Z.ltb_spec b H32); [reflexivity | lia].
+Qed.
+
+Lemma sound_as_u32 a : sound_int a -> sound_int (CAs TU32 a).
+Proof.
+  intros IHa x k v Ht Hx He Hex. destruct (exact_inv _ _ _ He Hex) as [Hfit Hexa].
+  cbn [wgsl_eval] in Hx. apply bind_ok in Hx. destruct Hx as [y [Hy Hc]].
+  cbn [mod_tree] in Ht. cbn [eval_constant_int] in He.
+  destruct (eval_constant_int a) as [[ka va]|] eqn:Ea; try discriminate He. injection He as <- <-.
+  specialize (IHa y ka va Ht Hy Ea Hexa).
+  destruct y as [b|b| |]; try contradiction; cbn [rep] in IHa; destruct IHa as [-> [-> Hb]];
+    unfold wgsl_convert in Hc; cbn [wgsl_convert_concrete] in Hc; injection Hc as <-; cbn [rep].
   - split; [reflexivity|]. split; [|assumption]. unfold u32_of_i32.
-    apply fits_uint in Hfit. unfold in32, sgn, M32, H32 in *. destruct (Z.ltb_spec b 2147483648); lia.
+    apply fits_uint in Hfit. revert Hfit Hb. unfold in32, sgn, M32, H32. intros Hfit Hb.
+    destruct (Z.ltb_spec b 2147483648); lia.
   - auto.
+Qed.
+
+Lemma sound_as t a : sound_int a -> sound_int (CAs t a).
+Proof.
+  intros IHa. destruct t; try (intros x k v Ht; discriminate Ht).
+  - apply sound_as_i32. exact IHa.
+  - apply sound_as_u32. exact IHa.
 Qed.
 
 Theorem eval_constant_int_sound : forall e x k v,
